@@ -232,7 +232,7 @@ func (o *zzDialOutbound) CheckUDP(reqAddr string) error        { return nil }
 // nothing; a successful one answers ok and relays the client's bytes to the
 // target; a logger veto closes the client's connection with code 0x107.
 //
-//verif:harness kind=api replay=interp unwind=64 preempt=0 bound=payload<=3B,dial-ok/fail,veto-or-not
+//verif:harness kind=api replay=interp unwind=64 preempt=0 bound=payload<=3B,dial-ok/fail,veto-or-not,event-logger-or-not
 func ZZ_C06_HandlerDialAndVeto() {
 	conn := &quic.Conn{}
 	st := &quic.Stream{}
@@ -247,6 +247,9 @@ func ZZ_C06_HandlerDialAndVeto() {
 	}
 	l := &zzCountLogger{vetoAt: verifChoice("vetoAt", 3) - 1}
 	cfg := &Config{Outbound: ob, TrafficLogger: l}
+	if verifChoice("eventLogger", 2) == 1 {
+		cfg.EventLogger = &zzEvents{} // with and without an event logger configured
+	}
 	h := newH3sHandler(cfg, conn)
 	h.authenticated = true
 	h.authID = "user"
